@@ -51,7 +51,7 @@ SIGS = {'s_slice': ('b', 'small', 'small'), 's_index': ('b', 'small'), 's_neg_sl
         's_pack': ('nat', 'nat'), 's_unpack': ('b',), 's_find': ('b', 'byte'), 's_minmax': ('int', 'int', 'int'), 's_bytes_ctor': ('int',),
         's_mul_bytes': ('b', 'small'), 's_cmp_chain': ('int', 'int', 'int'), 's_len_arith': ('b', 'pos'), 's_ifexp': ('int', 'int'),
         's_try': ('b', 'small'), 's_while': ('nat',), 's_tuple_unpack': ('int', 'int'), 's_bool_ops': ('b',),
-        's_int_conv': ('int',), 's_pow': ('small',)}
+        's_int_conv': ('int',), 's_pow': ('small',), 's_bit_at': ('int', 'int')}
 
 
 def _one(name, args):
